@@ -166,7 +166,7 @@ def run(tier="quick"):
                             "chain-dereference proof and CAP bounds for the array map")
     for rid, txt in (("M1", "set stores copies of key and value"), ("M2", "removal is selected by key equality"),
                      ("M3", "set reports replace/insert exactly"), ("L6", "lookup and insertion agree on ascending key order"),
-                     ("L2", "unlink updates pred/succ/head/tail independently"), ("L5", "len follows removal"),
+                     ("L2", "unlink updates pred/succ/head/tail independently"), ("L5", "len follows removal"), ("L3", "created node linked forwards and backwards (the sorted insert set() delegates to)"), ("L7", "every node of a doubly linked copy is back-linked"),
                      ("D1", "chain pointers dereferenced only inside the chain"),
                      ("B1", "array storage bounds and len/items invariant"), ("K1", "pair comparison accepts pair or bare key"),
                      ("U1", "no uninitialised local")):
@@ -179,6 +179,9 @@ def run(tier="quick"):
     nset = check_set_result(chk, prog, fns)
     nord = LR.check_ordering(chk, prog, [f for f in fns if LR.short_slot(prog, f) in ("get", "insert") or re.search(r"_insert$", f.name)])
     nun = LR.check_unlink_effects(chk, prog, "dlinked_list.c", True, only=names) + LR.check_unlink_effects(chk, prog, "linked_list.c", False, only=names)
+    nins = LR.check_insert_effects(chk, prog, "dlinked_list.c", True, only=names) + LR.check_insert_effects(chk, prog, "linked_list.c", False, only=names)
+    chk.count("insert_functions", nins, floor=2)
+    nbl = LR.check_dup_backlinks(chk, prog, only={f.name for f in LR.iface_functions(prog, "map", with_parent=True)})
     nlen = sum(LR.check_len_on_remove(chk, prog, u, only=names) for u in ("linked_list.c", "dlinked_list.c"))
     nd = 0
     for u in ("linked_list.c", "dlinked_list.c"):
